@@ -103,6 +103,10 @@ pub struct CaseStats {
     pub excluded: BTreeMap<&'static str, u32>,
     pub op_counts: BTreeMap<&'static str, u32>,
     pub foreign: Option<(String, String)>,
+    /// clone / clone_from operations executed so far
+    pub clones: u32,
+    /// round trips after which the deserialized world replaced the original
+    pub deser_replaced: u32,
 }
 
 #[derive(Clone, Debug, Default)]
@@ -125,6 +129,8 @@ pub struct Interp<R: Reg> {
     clone_marks: [bool; NSLOTS],
     /// dump of each slot after the previous step (classification only)
     prev: Vec<Option<brood::verif::Dump>>,
+    /// slots the current step operated on (the others only get the cheap unchanged-check)
+    touched: [bool; NSLOTS],
 }
 
 type FResult = Result<(), Fail>;
@@ -157,6 +163,7 @@ impl<R: Reg> Interp<R> {
             made_this_step: HashSet::new(),
             clone_marks: [false; NSLOTS],
             prev: (0..NSLOTS).map(|_| None).collect(),
+            touched: [true; NSLOTS],
         };
         s.ensure(0);
         s
@@ -174,6 +181,7 @@ impl<R: Reg> Interp<R> {
 
     fn slot(&mut self, w: u8) -> &mut Slot<R> {
         let w = w as usize % NSLOTS;
+        self.touched[w] = true;
         self.ensure(w);
         self.slots[w].as_mut().unwrap()
     }
@@ -194,6 +202,19 @@ impl<R: Reg> Interp<R> {
         ledger::take_made();
         ledger::take_dropped();
         self.made_this_step.clear();
+        self.touched = [false; NSLOTS];
+        match op {
+            Op::CloneTo { src, dst } | Op::CloneFrom { dst, src } => {
+                self.touched[*src as usize % NSLOTS] = true;
+                self.touched[*dst as usize % NSLOTS] = true;
+            }
+            Op::Eq { a, b } => {
+                self.touched[*a as usize % NSLOTS] = true;
+                self.touched[*b as usize % NSLOTS] = true;
+            }
+            Op::DropWorld { w } => self.touched[*w as usize % NSLOTS] = true,
+            _ => {}
+        }
         let r = self.apply_inner(op);
         // Values constructed during the step (harness-made or library-made).
         self.made_this_step.extend(ledger::take_made());
@@ -552,6 +573,7 @@ impl<R: Reg> Interp<R> {
                 }
                 self.clone_marks = [false; NSLOTS];
                 self.clone_marks[dst] = true;
+                self.stats.clones += 1;
             }
             Op::CloneFrom { dst, src } => {
                 let (src, dst) = (*src as usize % NSLOTS, *dst as usize % NSLOTS);
@@ -583,6 +605,7 @@ impl<R: Reg> Interp<R> {
                 self.slots[dst] = Some(d);
                 self.clone_marks = [false; NSLOTS];
                 self.clone_marks[dst] = true;
+                self.stats.clones += 1;
             }
             Op::RoundTrip { w, enc, mode } => {
                 self.round_trip(*w, *enc, *mode)?;
@@ -718,6 +741,7 @@ impl<R: Reg> Interp<R> {
                 talloc::tracked(|| drop(old));
                 s.model.forget_serials();
                 s.deserialized = true;
+                self.stats.deser_replaced += 1;
             }
         }
         Ok(())
@@ -1053,8 +1077,16 @@ impl<R: Reg> Interp<R> {
                     *counts.entry((ledger::Kind::Res as u8, 2)).or_insert(0) += 1;
                 }
             }
-            // (6) identifier probes
-            let issued: Vec<Id> = if s.model.issued.len() > 400 { s.model.issued[s.model.issued.len() - 400..].to_vec() } else { s.model.issued.clone() };
+            // (6) identifier probes (only for worlds this step operated on)
+            let touched = self.touched[w];
+            if touched {
+            let issued: Vec<Id> = if s.model.issued.len() > 200 {
+                let mut v = s.model.issued[..40].to_vec();
+                v.extend_from_slice(&s.model.issued[s.model.issued.len() - 160..]);
+                v
+            } else {
+                s.model.issued.clone()
+            };
             let es = R::entries_snapshot(&mut s.real, &issued);
             let d = R::dump(&s.real);
             for (id, e) in issued.iter().zip(es) {
@@ -1132,6 +1164,7 @@ impl<R: Reg> Interp<R> {
                 }
             }
             self.prev[w] = Some(d.clone());
+            }
             // shadow (C06 lock-step)
             if let Some(sh) = s.shadow.as_mut() {
                 let ssnap = match snapshot_map::<R>(sh) {
@@ -1239,13 +1272,37 @@ impl<R: Reg> Interp<R> {
 }
 
 pub fn id_parts(id: Id) -> Option<(usize, u64)> {
-    // `entity::Identifier` is opaque; its Debug form is `Identifier { index: 1, generation: 2 }`.
-    let s = format!("{id:?}");
-    let i = s.find("index: ")? + 7;
-    let j = s[i..].find(',')? + i;
-    let g = s.find("generation: ")? + 12;
-    let h = s[g..].find(' ').map(|x| x + g).unwrap_or(s.len() - 1);
-    Some((s[i..j].parse().ok()?, s[g..h].trim_end_matches('}').trim().parse().ok()?))
+    // `entity::Identifier` is opaque, but it is two plain words: (index: usize, generation: u64).
+    // The layout is checked against the Debug form once per process.
+    use std::sync::atomic::{AtomicU8, Ordering};
+    static LAYOUT: AtomicU8 = AtomicU8::new(0); // 0 unknown, 1 (index, generation) words, 2 other
+    fn via_debug(id: Id) -> Option<(usize, u64)> {
+        let s = format!("{id:?}");
+        let i = s.find("index: ")? + 7;
+        let j = s[i..].find(',')? + i;
+        let g = s.find("generation: ")? + 12;
+        let h = s[g..].find(' ').map(|x| x + g).unwrap_or(s.len() - 1);
+        Some((s[i..j].parse().ok()?, s[g..h].trim_end_matches('}').trim().parse().ok()?))
+    }
+    fn via_bytes(id: Id) -> (usize, u64) {
+        // SAFETY: only called when Identifier is 16 bytes; it is a Copy struct of two words.
+        let words: [u64; 2] = unsafe { std::mem::transmute_copy(&id) };
+        (words[0] as usize, words[1])
+    }
+    match LAYOUT.load(Ordering::Relaxed) {
+        1 => Some(via_bytes(id)),
+        2 => via_debug(id),
+        _ => {
+            let d = via_debug(id)?;
+            if std::mem::size_of::<Id>() != 16 {
+                LAYOUT.store(2, Ordering::Relaxed);
+            } else if d.0 as u64 != d.1 {
+                // an identifier whose two fields differ tells the field order
+                LAYOUT.store(if via_bytes(id) == d { 1 } else { 2 }, Ordering::Relaxed);
+            }
+            Some(d)
+        }
+    }
 }
 
 pub type SnapMap = HashMap<Id, Vec<Option<Obs>>>;
@@ -1400,18 +1457,18 @@ pub fn audit<R: Reg>(d: &brood::verif::Dump, model: &Model, len: usize) -> Resul
         return Err(format!("len() = {len}, len field {}, reference map {}", d.len, model.ents.len()));
     }
     // (iv) every entity sits in the table of its component set
+    let by_parts: HashMap<(usize, u64), (&Id, u32)> = model.ents.iter().filter_map(|(id, comps)| id_parts(*id).map(|p| (p, (id, Model::mask(comps))))).collect();
     for a in &d.archetypes {
         let mut mask = 0u32;
         for (i, b) in a.identifier.iter().enumerate() {
             mask |= (*b as u32) << (8 * i);
         }
         for (idx, gen) in &a.entity_identifiers {
-            let found = model.ents.iter().find(|(id, _)| id_parts(**id) == Some((*idx, *gen)));
-            match found {
+            match by_parts.get(&(*idx, *gen)) {
                 None => return Err(format!("stored row with identifier ({idx},{gen}) is not a live entity of the reference map")),
-                Some((id, comps)) => {
-                    if Model::mask(comps) != mask {
-                        return Err(format!("{id:?} has component set {:#b} but is stored in the table for {mask:#b}", Model::mask(comps)));
+                Some((id, m)) => {
+                    if *m != mask {
+                        return Err(format!("{id:?} has component set {m:#b} but is stored in the table for {mask:#b}"));
                     }
                 }
             }
